@@ -10,6 +10,10 @@ import (
 
 // VerifSimResetRateLimit forgets every failure record and re-arms the one-time pruner start.
 func VerifSimResetRateLimit() {
+	// (race builds: happens-before edge from the frozen pruner of the previous run, see props/C24/harness.go)
+	if loginAttemptsMu.TryLock() {
+		loginAttemptsMu.Unlock()
+	}
 	loginAttemptsMu = sync.Mutex{}
 	loginAttempts = map[string]*loginRecord{}
 	scanOnce = sync.Once{}
